@@ -301,6 +301,31 @@ func (s *ServerProc) WaitLog(markers []string, within time.Duration) (string, er
 	}
 }
 
+// ReloadsInFlight reads the server's own log: the number of reloads it has started ("SIGHUP
+// received") minus the number it has finished (completion or failure marker).
+func (s *ServerProc) ReloadsInFlight() int {
+	b, err := os.ReadFile(s.LogPath)
+	if err != nil {
+		return 0
+	}
+	t := string(b)
+	return strings.Count(t, "SIGHUP received. Loading config.") - strings.Count(t, "Stopped all listeners for running config") - strings.Count(t, "Failed to update server")
+}
+
+// WaitReloadsDone waits until every reload the server has started has also finished (bounded).
+func (s *ServerProc) WaitReloadsDone(within time.Duration) bool {
+	for dl := time.Now().Add(within); time.Now().Before(dl); time.Sleep(5 * time.Millisecond) {
+		if s.ReloadsInFlight() <= 0 {
+			// a signal that was delivered but not yet logged: look once more a moment later
+			time.Sleep(30 * time.Millisecond)
+			if s.ReloadsInFlight() <= 0 {
+				return true
+			}
+		}
+	}
+	return false
+}
+
 // atomicWrite replaces a file in one step (write aside + rename), so that a server that is
 // reading the configuration at that moment sees either the old or the new content, never a
 // truncated file.
